@@ -193,8 +193,21 @@ def allow_rename_globals(module, rename_globals=False, preserve_globals=None):
 
     preserve_globals.extend(find__all__(module))
 
+    def only_declared(binding):
+        # Is this name only introduced by global statements, and never assigned?
+        declared = False
+        for node in binding.references:
+            if isinstance(node, ast.Global):
+                declared = True
+            elif not (isinstance(node, ast.Name) and isinstance(node.ctx, ast.Load)):
+                return False
+        return declared
+
     for binding in module.bindings:
         if rename_globals is False or binding.name in preserve_globals:
+            binding.disallow_rename()
+        elif only_declared(binding):
+            # This module never binds the name, so it must be provided from outside
             binding.disallow_rename()
 
 
